@@ -2,4 +2,4 @@
 # Runs the checks named in benign/plan.txt against each behaviour-preserving refactoring (benign/<id>/patch.diff) in a
 # scratch worktree; every line must say exit=0.
 cd /verif
-while read b checks; do echo "## $b"; tools/seed_run.sh benign/$b/patch.diff quick $checks; done < benign/plan.txt
+while read b checks; do echo "## $b"; HARNESS_SRC=${HARNESS_SRC:-/verif/harness} tools/seed_run.sh benign/$b/patch.diff quick $checks; done < benign/plan.txt
